@@ -300,7 +300,38 @@ def hint_rules(r, lib, path_fns):
                                 has_all = any(x[0] == "call" and x[1].endswith("::len") and any(st == ("arg", 1) for st in mir.subterms(x)) for x in sides)
                                 if has_set and has_all:
                                     found = True
+    # H3: when no qualification length separates the candidates, the longest trace is used
+    for n in sorted(path_fns):
+        bd = lib.bodies[n]
+        if not any(cname(cs.node) == "std::iter::Iterator::collect" and (cs.node["callee"].get("targs", [{}, {}])[1:] or [{}])[0].get("adt") in
+                   ("std::collections::HashSet", "std::collections::BTreeSet") for cs in bd.calls()):
+            continue
+        rets = [s for s in bd.sites() if (s.si is not None and s.node["k"] == "assign" and s.node["place"]["l"] == 0 and not s.node["place"]["p"]) or
+                (s.si is None and s.node["k"] == "call" and s.node["dest"]["l"] == 0)]
+        fallback = []
+        for s in rets:
+            t = strip(term_of(bd, s.node["rv"]["op"])) if s.si is not None and s.node["rv"]["k"] == "use" else (
+                ("call", cname(s.node), [term_of(bd, a) for a in s.node["args"]], s) if s.si is None else ("?",))
+            if t[0] == "binop" or (t[0] == "proj" and t[1][0] == "binop"):
+                continue  # the early `i + 1` return (H1)
+            fallback.append((s, t))
+        okf = len(fallback) == 1
+        why = "%d fallback results" % len(fallback)
+        if okf:
+            s0, t = fallback[0]
+            names = [st[1] for st in mir.subterms(t) if st[0] == "call"]
+            okf = "std::iter::Iterator::max" in names and any(x.endswith("::len") for x in _closure_calls(lib, t)) and any(st == ("arg", 1) for st in mir.subterms(t))
+            why = "falls back to the maximum trace length over all candidates" if okf else "the fallback qualification length is %s, not the maximum over all candidates" % term_s(t)[:70]
+        r.ob("H3.hint-fallback-is-longest", bd.name, okf, why, site=fallback[0][0] if fallback else mir.line_of(bd.span), key="H3|fallback")
     r.ob("H1.hint-distinctness-whole-set", "struct-name path", found,
          "a shorter qualification is accepted only when the set of all candidate names has as many members as there are candidates" if found else
          "no `all candidates pairwise distinct` test (set cardinality == number of candidates) guards the choice of the qualification length",
          key="H1|distinct")
+
+
+def _closure_calls(lib, t):
+    out = []
+    for st in mir.subterms(t):
+        if st[0] in ("fn", "agg") and isinstance(st[1], str) and st[1] in lib.bodies:
+            out += [cname(c.node) for c in lib.bodies[st[1]].calls()]
+    return out
